@@ -298,6 +298,7 @@ def plan_long(ctx: Ctx) -> list:
 
 
 def run(ctx: Ctx) -> None:
+    ctx.max_reported = 20        # one line per distinct defect
     budget = (75 if ctx.quick else 1500) * float(
         os.environ.get('VERIF_BUDGET_SCALE', '1'))   # development aid
     items = plan(ctx)
